@@ -216,6 +216,10 @@ pub fn run(a: &Args) {
     let mut o = Out::new(&a.cases);
     let mut r = Rng::new(a.seed);
     let all = algs();
+    // the detection theorems assume parameters within the width and an odd polynomial
+    for alg in &all {
+        o.case("crcalg", &[&alg.alg.spec()], "1");
+    }
     let n = if a.thorough { 1500 } else { 90 };
     for i in 0..n {
         let alg = all[i % all.len()];
